@@ -13,7 +13,11 @@
 mod util;
 
 mod c00_probe;
+mod c01_data;
+mod c01_reasm;
 mod c02_credit;
+mod c03_sender;
 mod c07_ports;
 mod c09_wire;
+mod c10_open;
 mod c99_tmp;
